@@ -2,13 +2,15 @@
 import os
 
 JOBS = int(os.environ.get('VERIF_JOBS', '16'))
-HARNESS_TIMEOUT = dict(quick=600, thorough=2400)
-KANI_TOTAL_TIMEOUT = dict(quick=1500, thorough=7200)
+# CBMC on the MQTT 5 state harnesses needs ~10 GB at table size 2 and more above: fewer in parallel in the thorough tier
+KANI_JOBS = dict(quick=JOBS, thorough=int(os.environ.get('VERIF_JOBS_THOROUGH', '4')))
+HARNESS_TIMEOUT = dict(quick=900, thorough=3600)
+KANI_TOTAL_TIMEOUT = dict(quick=2400, thorough=6 * 3600)
 PLAYBACK_TIMEOUT = 420
 
 # placeholders substituted into harness files (/verif/kani/<crate>/*.rs) per tier
 # table sizes (max_inflight) for which every @steps harness is instantiated
-STEP_NS = dict(quick=[2], thorough=[1, 2, 3, 4])
+STEP_NS = dict(quick=[2], thorough=[1, 2, 3])
 
 KANI_SUBST = dict(
     quick=dict(NMAX=3, UNWIND=10),
@@ -173,7 +175,7 @@ PROPS = dict(
         scope='rumqttc MqttState v4+v5: next_pkid (complete: all limits), outgoing_publish / subscribe / unsubscribe / pubrel id range and freshness, inflight counter exact (inflight == occupied slots + pending releases), collision only while the id is held, v5 CONNACK receive-maximum',
         residual='the select! guard `!inflight_full && !collision` and "resumes as soon as an ack frees the window" are async event-loop code (unverified composition); the state-level facts they rely on are the obligations here',
         trusted_base=_CLIENT_STATE_TRUSTED,
-        assumptions=['bounded in table size (max_inflight) only: quick n=2 (outgoing_publish n=1,2), thorough n=1..4; next_pkid is complete for all limits 1..=65535'],
+        assumptions=['bounded in table size (max_inflight) only: quick n=2 (outgoing_publish n=1,2), thorough n=1..3; next_pkid is complete for all limits 1..=65535'],
     ),
     C10=dict(
         verus=[], kani=['rumqttc'], native=['rumqttc'],
@@ -216,7 +218,7 @@ PROPS = dict(
         scope='rumqttc MqttState (v4): handle_incoming_{puback,pubrec,pubcomp}, outgoing_publish, outgoing_pubrel/save_pubrel, clean — inductive-step contracts over all well-formed states',
         residual='EventLoop::{clean,poll,select,next_request} and Network are async (tokio::select!, Framed): that clean() runs on every error, that pending is kept iff session_present and drained before the channel is an unverified composition',
         trusted_base=_CLIENT_STATE_TRUSTED,
-        assumptions=['bounded in table size (max_inflight) only: quick n=2 (outgoing_publish n=1,2), thorough n=1..4; packet ids, QoS, flags full domain'],
+        assumptions=['bounded in table size (max_inflight) only: quick n=2 (outgoing_publish n=1,2), thorough n=1..3; packet ids, QoS, flags full domain'],
     ),
     C13=dict(
         verus=['commitlog'],
